@@ -171,15 +171,22 @@ fn scenarios() -> Vec<Scenario> {
         // the same over a sink that accepts at most 2 bytes per write call
         v.push(Scenario { chunk: 2, name: leak(format!("{mn}/short-sink/2x1/all-all")), mode, threads: vec![vec![w3], vec![w4]], preemptions: 3, thorough_only: false });
         v.push(Scenario { chunk: 2, name: leak(format!("{mn}/short-sink/2x1/fmt-lit")), mode, threads: vec![vec![f3], vec![k1]], preemptions: 2, thorough_only: false });
-        v.push(Scenario { chunk: 1, name: leak(format!("{mn}/short-sink1/2x2/all,line-fmt,all")), mode, threads: vec![vec![w3, l1], vec![f3, w4]], preemptions: 2, thorough_only: true });
-        v.push(Scenario { chunk: usize::MAX, name: leak(format!("{mn}/3x1/fmt-line-all/p3")), mode, threads: vec![vec![f1], vec![l1], vec![w1]], preemptions: 3, thorough_only: true });
-        v.push(Scenario { chunk: usize::MAX, name: leak(format!("{mn}/2x2/p3")), mode, threads: vec![vec![f1, w1], vec![l1, w2]], preemptions: 3, thorough_only: true });
-        v.push(Scenario { chunk: usize::MAX, name: leak(format!("{mn}/3x2/p2")), mode, threads: vec![vec![f1, w1], vec![l1, w2], vec![f2, l1]], preemptions: 2, thorough_only: true });
-        v.push(Scenario { chunk: usize::MAX, name: leak(format!("{mn}/2x1/unbounded")), mode, threads: vec![vec![f1], vec![w2]], preemptions: usize::MAX, thorough_only: true });
-        v.push(Scenario { chunk: usize::MAX, name: leak(format!("{mn}/2x2/unbounded")), mode, threads: vec![vec![f1, w1], vec![l1, w2]], preemptions: usize::MAX, thorough_only: true });
-        v.push(Scenario { chunk: usize::MAX, name: leak(format!("{mn}/2x3/p3")), mode, threads: vec![vec![f1, w1, l1], vec![l1, w2, f2]], preemptions: 3, thorough_only: true });
-        v.push(Scenario { chunk: usize::MAX, name: leak(format!("{mn}/4x1/p2")), mode, threads: vec![vec![f1], vec![l1], vec![w1], vec![f2]], preemptions: 2, thorough_only: true });
-        v.push(Scenario { chunk: usize::MAX, name: leak(format!("{mn}/3x2/p3")), mode, threads: vec![vec![f1, w1], vec![l1, w2], vec![f2, l1]], preemptions: 3, thorough_only: true });
+        v.push(Scenario { chunk: 1, name: leak(format!("{mn}/short-sink1/2x2/all,line-fmt,all")), mode, threads: vec![vec![w3, l1], vec![f3, w4]], preemptions: 2, thorough_only: false });
+        v.push(Scenario { chunk: usize::MAX, name: leak(format!("{mn}/3x1/fmt-line-all/p3")), mode, threads: vec![vec![f1], vec![l1], vec![w1]], preemptions: 3, thorough_only: false });
+        v.push(Scenario { chunk: usize::MAX, name: leak(format!("{mn}/2x2/p3")), mode, threads: vec![vec![f1, w1], vec![l1, w2]], preemptions: 3, thorough_only: false });
+        v.push(Scenario { chunk: usize::MAX, name: leak(format!("{mn}/3x2/p2")), mode, threads: vec![vec![f1, w1], vec![l1, w2], vec![f2, l1]], preemptions: 2, thorough_only: false });
+        v.push(Scenario { chunk: usize::MAX, name: leak(format!("{mn}/2x1/unbounded")), mode, threads: vec![vec![f1], vec![w2]], preemptions: usize::MAX, thorough_only: false });
+        v.push(Scenario { chunk: usize::MAX, name: leak(format!("{mn}/2x2/unbounded")), mode, threads: vec![vec![f1, w1], vec![l1, w2]], preemptions: usize::MAX, thorough_only: false });
+        v.push(Scenario { chunk: usize::MAX, name: leak(format!("{mn}/3x1/unbounded")), mode, threads: vec![vec![f1], vec![l1], vec![w1]], preemptions: usize::MAX, thorough_only: false });
+        v.push(Scenario { chunk: usize::MAX, name: leak(format!("{mn}/2x3/unbounded")), mode, threads: vec![vec![f1, w1, l1], vec![l1, w2, f2]], preemptions: usize::MAX, thorough_only: false });
+        v.push(Scenario { chunk: 2, name: leak(format!("{mn}/short-sink/3x1/p2")), mode, threads: vec![vec![w3], vec![w4], vec![f3]], preemptions: 2, thorough_only: false });
+        v.push(Scenario { chunk: usize::MAX, name: leak(format!("{mn}/3x2/unbounded")), mode, threads: vec![vec![f1, w1], vec![l1, w2], vec![f2, k1]], preemptions: usize::MAX, thorough_only: true });
+        v.push(Scenario { chunk: usize::MAX, name: leak(format!("{mn}/4x1/p3")), mode, threads: vec![vec![f1], vec![l1], vec![w1], vec![k0]], preemptions: 3, thorough_only: true });
+        v.push(Scenario { chunk: usize::MAX, name: leak(format!("{mn}/3x3/p2")), mode, threads: vec![vec![f1, w1, k0], vec![l1, w2, f2], vec![k1, f3, w3]], preemptions: 2, thorough_only: true });
+        v.push(Scenario { chunk: 1, name: leak(format!("{mn}/short-sink1/3x1/p3")), mode, threads: vec![vec![w3], vec![w4], vec![f3]], preemptions: 3, thorough_only: true });
+        v.push(Scenario { chunk: usize::MAX, name: leak(format!("{mn}/2x3/p3")), mode, threads: vec![vec![f1, w1, l1], vec![l1, w2, f2]], preemptions: 3, thorough_only: false });
+        v.push(Scenario { chunk: usize::MAX, name: leak(format!("{mn}/4x1/p2")), mode, threads: vec![vec![f1], vec![l1], vec![w1], vec![f2]], preemptions: 2, thorough_only: false });
+        v.push(Scenario { chunk: usize::MAX, name: leak(format!("{mn}/3x2/p3")), mode, threads: vec![vec![f1, w1], vec![l1, w2], vec![f2, l1]], preemptions: 3, thorough_only: false });
     }
     v
 }
@@ -372,8 +379,10 @@ fn reg_scenarios() -> Vec<RegScenario> {
         RegScenario { name: "register/2w1(1,2)-1r2", writers: &[&[1], &[2]], reads: 2, preemptions: 3, thorough_only: false },
         RegScenario { name: "register/2w1(2,1)-1r1/unbounded", writers: &[&[2], &[1]], reads: 1, preemptions: usize::MAX, thorough_only: false },
         RegScenario { name: "register/2w2-1r2", writers: &[&[1, 2], &[3, 0]], reads: 2, preemptions: 2, thorough_only: false },
-        RegScenario { name: "register/2w2-1r3/p3", writers: &[&[1, 2], &[3, 1]], reads: 3, preemptions: 3, thorough_only: true },
-        RegScenario { name: "register/3w1-1r2/p3", writers: &[&[1], &[2], &[3]], reads: 2, preemptions: 3, thorough_only: true },
+        RegScenario { name: "register/2w2-1r3/p3", writers: &[&[1, 2], &[3, 1]], reads: 3, preemptions: 3, thorough_only: false },
+        RegScenario { name: "register/3w2-1r2/p2", writers: &[&[1, 2], &[2, 1], &[3, 0]], reads: 2, preemptions: 2, thorough_only: true },
+        RegScenario { name: "register/2w2-1r4/p3", writers: &[&[1, 2], &[2, 3]], reads: 4, preemptions: 3, thorough_only: true },
+        RegScenario { name: "register/3w1-1r2/p3", writers: &[&[1], &[2], &[3]], reads: 2, preemptions: 3, thorough_only: false },
     ]
 }
 
